@@ -19,13 +19,16 @@ META = {
 # helper callees that legitimately exist on one side only (reason)
 HELPER_EXEMPT = {
     ("SIZE", "is_ident_byte_string_data_type"): "bstr .size: byte strings do not exist in the JSON data model",
-    ("B64U", "validate_b64u_text"): "JSON uses its own JSONValidator::validate_b64_control; reviewed 2026-09-22, strict mode decodes with the same data_encoding tables, no diverging input found",
-    ("B64C", "validate_b64c_text"): "same (validate_b64_control, classic alphabet)",
-    ("B64USLOPPY", "validate_b64u_text"): "same; the CBOR helper has an extra strip-last-character fallback, no diverging verdict found with probes",
+    # the JSON validator has its own implementations of the text-encoding controls; their agreement with the shared helpers the
+    # CBOR validator calls is decided by C04.encctl (abstract evaluation of both) and C04.ctlbytes, not assumed here.
+    # (2026-09-22: an earlier version exempted these after probing only; two genuine divergences hid behind that exemption.)
+    ("B64U", "validate_b64u_text"): "own implementation JSONValidator::validate_b64_control; agreement decided by C04.encctl",
+    ("B64C", "validate_b64c_text"): "same",
+    ("B64USLOPPY", "validate_b64u_text"): "same",
     ("B64CSLOPPY", "validate_b64c_text"): "same",
-    ("HEXLC", "validate_hex_text"): "JSON uses its own validate_hex_control(bytes, HexCase::Lower): same decode + case test as the shared helper (reviewed after the fix commit that added the case test)",
-    ("HEXUC", "validate_hex_text"): "same with HexCase::Upper",
-    ("HEX", "validate_hex_text"): "JSON uses its own validate_hex_control (hex::decode, any case) = HexCase::Any of the shared helper",
+    ("HEXLC", "validate_hex_text"): "own implementation JSONValidator::validate_hex_control; agreement decided by C04.encctl",
+    ("HEXUC", "validate_hex_text"): "same",
+    ("HEX", "validate_hex_text"): "same",
 }
 
 
@@ -147,6 +150,157 @@ def r_helpers(ctx):
                           "control %s reaches shared helper %s only in the %s validator" % (v, h, side))
 
 
+CTRL_FILE = "src/validator/control.rs"
+JSON_FILE = "src/validator/json.rs"
+
+
+def _run_free(f, name, env, scripts):
+    """interpret free function `name` of control.rs on env with scripted callees"""
+    import absint
+    fi = f.fn(CTRL_FILE, name)
+
+    def on_call(kind, nm, node, args, recv):
+        base = (nm or "").split("::")[-1]
+        if kind == "method" and nm in scripts:
+            return scripts[nm](node, recv, args)
+        if kind == "fn" and (nm in scripts or base in scripts):
+            return (scripts.get(nm) or scripts[base])(node, None, args)
+        return NotImplemented
+    it = absint.Interp(env=env, cfg=vt.cfg_fn("default"), on_call=on_call)
+    try:
+        return it.block(fi.node["body"])
+    except absint.Return as r:
+        return r.v
+
+
+def r_encctl(ctx):
+    import absint
+    rid = "C04.encctl"
+    ctx.rule(rid, "the text-encoding controls .b64u/.b64c(-sloppy) and .hex/.hexlc/.hexuc are implemented twice (JSONValidator::validate_b64_control "
+                  "/ validate_hex_control and control.rs validate_b64u_text / validate_b64c_text / validate_hex_text for CBOR): for every outcome "
+                  "of the strict decode (equal bytes / other bytes / error), of the sloppy decode, and every letter-case class of the text, both "
+                  "accept exactly when RFC 9741 does (strict decode equal; or sloppy and sloppy decode equal; case as demanded) — abstract "
+                  "evaluation of both sources with the decoders scripted", floor=60)
+    f = ctx.facts
+    V, W = ("str", "V"), ("str", "W")
+    outcomes = {"eq": V, "ne": W, "err": None}
+    # ---- base64
+    for classic in (False, True):
+        for sloppy in (False, True):
+            for strict in outcomes:
+                for slop in outcomes:
+                    key = "b64|classic=%s|sloppy=%s|strict=%s|sloppydecode=%s" % (classic, sloppy, strict, slop)
+                    want = strict == "eq" or (strict == "err" and sloppy and slop == "eq")
+
+                    calls = [0]
+
+                    def dec(node, recv, args, strict=strict, slop=slop, calls=calls):
+                        # 1st decode = the strict attempt; a 2nd decode of the same text (padding stripped) = the sloppy attempt;
+                        # any further decode works on a shortened text and yields a proper prefix of the real content
+                        calls[0] += 1
+                        o = outcomes[strict] if calls[0] == 1 else outcomes[slop] if calls[0] == 2 else ("str", "")
+                        return ("Ok", o) if o is not None else ("Err", ("str", "e"))
+
+                    def sl(node, recv, args, slop=slop):
+                        return ("Some", outcomes[slop]) if outcomes[slop] is not None else ("None",)
+                    scripts = {"decode": dec, "decode_b64_sloppy": sl, "encode": lambda n, r, a: ("str", "ENC")}
+                    try:
+                        ctrl = ("enum", "Type2::B16ByteString", {"value": V})
+                        res = _run_free(f, "validate_b64c_text" if classic else "validate_b64u_text",
+                                        {"__target": absint.OPAQUE, "controller": ctrl, "text_value": ("str", "TXT"), "is_sloppy": sloppy}, scripts)
+                        cbor = res == ("Ok", True)
+                        if res not in (("Ok", True), ("Ok", False)):
+                            raise absint.Unknown("helper returned %r" % (res,))
+                        calls[0] = 0
+                        run = vt.ObjRun(f, JSON_FILE, "JSONValidator", scripts={"decode": lambda r, it, node, recv: dec(node, recv, None),
+                                                                                "encode": lambda r, it, node, recv: ("str", "ENC"),
+                                                                                "decode_b64_sloppy": lambda r, it, node, args: sl(node, None, args)})
+                        obj = vt.self_obj("json", ("enum", "Value::String", [("str", "TXT")]))
+                        run.call("validate_b64_control", obj, {"bytes": V, "is_classic": classic, "is_sloppy": sloppy})
+                        js = run.errors == 0
+                    except (absint.Unknown, vf.Incomplete) as e:
+                        ctx.incomplete_msg(rid, "%s: %s" % (key, e))
+                        continue
+                    ctx.site(rid, key, CTRL_FILE, f.fn(CTRL_FILE, "validate_b64u_text").line, {"json": js, "cbor": cbor, "rfc9741": want})
+                    if js != cbor:
+                        ctx.violation(rid, key + "|diverge", JSON_FILE, run.fn("validate_b64_control").line,
+                                      "base64 control (%s): JSON %s, CBOR helper %s" % (key, "accepts" if js else "rejects", "accepts" if cbor else "rejects"))
+                    elif js != want:
+                        ctx.violation(rid, key + "|rfc", CTRL_FILE, f.fn(CTRL_FILE, "validate_b64u_text").line,
+                                      "base64 control (%s): both validators %s, RFC 9741 %s" % (key, "accept" if js else "reject", "accepts" if want else "rejects"))
+    # ---- hex
+    texts = {"lower": "6a", "upper": "6A", "digits": "61", "mixed": "aA"}
+    for case in ("Any", "Lower", "Upper"):
+        for strict in outcomes:
+            for tname, txt in texts.items():
+                key = "hex|case=%s|decode=%s|text=%s" % (case, strict, tname)
+                case_ok = case == "Any" or (case == "Lower" and not any(c.isupper() for c in txt)) or (case == "Upper" and not any(c.islower() for c in txt))
+                want = strict == "eq" and case_ok
+
+                def dec(node, recv, args, strict=strict):
+                    return ("Ok", outcomes[strict]) if outcomes[strict] is not None else ("Err", ("str", "e"))
+                try:
+                    ctrl = ("enum", "Type2::UTF8ByteString", {"value": V})
+                    res = _run_free(f, "validate_hex_text", {"__target": absint.OPAQUE, "controller": ctrl, "text_value": ("str", txt),
+                                                             "case_type": ("enum", "HexCase::" + case, [])}, {"decode": dec})
+                    if res not in (("Ok", True), ("Ok", False)):
+                        raise absint.Unknown("helper returned %r" % (res,))
+                    cbor = res == ("Ok", True)
+                    run = vt.ObjRun(f, JSON_FILE, "JSONValidator", scripts={"decode": lambda r, it, node, args: dec(node, None, args),
+                                                                            "encode": lambda r, it, node, args: ("str", "ENC"),
+                                                                            "encode_upper": lambda r, it, node, args: ("str", "ENC")})
+                    obj = vt.self_obj("json", ("enum", "Value::String", [("str", txt)]))
+                    run.call("validate_hex_control", obj, {"bytes": V, "case": ("enum", "HexCase::" + case, [])})
+                    js = run.errors == 0
+                except (absint.Unknown, vf.Incomplete) as e:
+                    ctx.incomplete_msg(rid, "%s: %s" % (key, e))
+                    continue
+                ctx.site(rid, key, CTRL_FILE, f.fn(CTRL_FILE, "validate_hex_text").line, {"json": js, "cbor": cbor, "rfc9741": want})
+                if js != cbor:
+                    ctx.violation(rid, key + "|diverge", JSON_FILE, run.fn("validate_hex_control").line,
+                                  "hex control (%s): JSON %s, CBOR helper %s" % (key, "accepts" if js else "rejects", "accepts" if cbor else "rejects"))
+                elif js != want:
+                    ctx.violation(rid, key + "|rfc", CTRL_FILE, f.fn(CTRL_FILE, "validate_hex_text").line,
+                                  "hex control (%s): both validators %s, RFC 9741 %s" % (key, "accept" if js else "reject", "accepts" if want else "rejects"))
+
+
+def r_ctlbytes(ctx):
+    import absint
+    rid = "C04.ctlbytes"
+    ctx.rule(rid, "JSONValidator::visit_type2 on a byte-string literal controller (h'..', '..', b64'..') under each text-encoding control hands "
+                  "the literal's decoded `value` unchanged to validate_b64_control / validate_hex_control (the CBOR helpers compare with "
+                  "`value` too): no second decoding or re-encoding of the controller", floor=20)
+    f = ctx.facts
+    fi = vt.visitor_fn(f, "json", "visit_type2")
+    atom = ("str", "VALUE-BYTES")
+    for kind in ("B16ByteString", "UTF8ByteString", "B64ByteString"):
+        for ctrl in ("B64U", "B64C", "B64USLOPPY", "B64CSLOPPY", "HEX", "HEXLC", "HEXUC"):
+            key = "%s|%s" % (kind, ctrl)
+            got = []
+
+            def rec(run, node, recv, got=got):
+                got.append(run.it.eval(node["a"][0]))
+                return ("Ok", ("tuple", []))
+            obj = vt.self_obj("json", ("enum", "Value::String", [("str", "TXT")]), ctrl=vt.ctrl_val(ctrl))
+            t2 = ("enum", "Type2::" + kind, {"value": atom})
+            r = vt.Run(f, "json", "default", {}, {"self": obj, "t2": t2},
+                       scripts={"validate_b64_control": rec, "validate_hex_control": rec,
+                                # any re-interpretation of the literal's bytes yields a different value
+                                "std::str::from_utf8": lambda run, node, args: ("Ok", ("str", "TEXT-OF-VALUE")),
+                                "core::str::from_utf8": lambda run, node, args: ("Ok", ("str", "TEXT-OF-VALUE")),
+                                "hex::decode": lambda run, node, args: ("Ok", ("str", "HEX-DECODED-AGAIN")),
+                                "hex::encode": lambda run, node, args: ("str", "HEX-ENCODED")})
+            try:
+                r.run(fi.node)
+            except absint.Unknown as e:
+                ctx.incomplete_msg(rid, "%s: %s" % (key, e))
+                continue
+            ctx.site(rid, key, fi.file, fi.line, {"passed": repr(got)[:60], "errors": r.errors})
+            if len(got) != 1 or got[0] != atom or r.errors:
+                ctx.violation(rid, key, fi.file, fi.line, "JSON visit_type2 on %s under .%s passes %r to the encoding check (expected the literal's "
+                              "value unchanged, once); %d error(s) recorded before the check" % (kind, ctrl.lower(), got, r.errors))
+
+
 def r_root(ctx):
     # both validate() functions satisfy the root rule (reported under C04 as sibling agreement)
     cv.root_rule(ctx, "C04j", "json")
@@ -158,5 +312,7 @@ def run(ctx):
     ctx.guarded("C04.arms", r_arms)
     ctx.guarded("C04.methods", r_methods)
     ctx.guarded("C04.helpers", r_helpers)
+    ctx.guarded("C04.encctl", r_encctl)
+    ctx.guarded("C04.ctlbytes", r_ctlbytes)
     import c09
     ctx.guarded("C04.bareword", lambda c: c09.r_bareword(c, "C04.bareword"))
